@@ -1,9 +1,10 @@
 package drv
 
 import (
-	"math/big"
+	"crypto/ecdsa"
 	"encoding/json"
 	"encoding/pem"
+	"math/big"
 	"math/rand"
 	"net/url"
 	"strings"
@@ -232,6 +233,8 @@ func crlShape(shape string, good []byte, certDER []byte) []byte {
 		return certDER
 	case "hugeJunk":
 		return []byte(strings.Repeat("\x30\x82", 1<<19))
+	case "noNumber": // correctly signed by its issuer, only without the cRLNumber extension
+		return gen.StripCrlNumber(good, key)
 	}
 	panic("unknown CRL shape " + shape)
 }
@@ -273,9 +276,9 @@ func RunPcsRespCase(cs map[string]any, id int, seed int64) Result {
 			case "qe":
 				r.Body = jsonShape(shape, "enclaveIdentity", c.QeSpec.Member(), c.QeSigner, c.QeBody, rng)
 			case "pckcrl":
-				r.Body = crlShape(shape, c.PckCrlDER, c.Leaf.DER)
+				r.Body = crlShape(shape, c.PckCrlDER, c.Leaf.DER, c.A.Inter.Key)
 			case "rootcrl":
-				r.Body = crlShape(shape, c.RootCrlDER, c.Leaf.DER)
+				r.Body = crlShape(shape, c.RootCrlDER, c.Leaf.DER, c.A.Root.Key)
 			}
 		}
 		g.Set(u, r)
